@@ -95,8 +95,8 @@ def isingQd : List Int := [0, 0]
 /-- `OID.I = 0, OID.Z = 1, OID.X = 2` -/
 def isingOpmap : OpMap κ := [(0, Mat.identity 2), (1, pauliZ), (2, pauliX)]
 
-/-- the automaton of `ising_mpo` (including its `assert autop.is_consistent()`) -/
-def isingAutomaton (J h g : κ) : Except Err (AutOp κ) := do
+/-- the automaton of `ising_mpo` as built by the constructor calls and the six `add_connect_edge` calls -/
+def isingAutomatonRaw (J h g : κ) : Except Err (AutOp κ) := do
   let t0 ← Node.mk' 0 [] [] 0
   let t1 ← Node.mk' 1 [] [] 0
   let nz ← Node.mk' 2 [] [] 0
@@ -106,7 +106,11 @@ def isingAutomaton (J h g : κ) : Except Err (AutOp κ) := do
   let a ← autAddConnectEdge a (constEdge 2 t0.nid nz.nid [(1, J)])
   let a ← autAddConnectEdge a (constEdge 3 nz.nid t1.nid [(1, 1)])
   let a ← autAddConnectEdge a (constEdge 4 t0.nid t1.nid [(1, h)])
-  let a ← autAddConnectEdge a (constEdge 5 t0.nid t1.nid [(2, g)])
+  autAddConnectEdge a (constEdge 5 t0.nid t1.nid [(2, g)])
+
+/-- the automaton of `ising_mpo` (including its `assert autop.is_consistent()`) -/
+def isingAutomaton (J h g : κ) : Except Err (AutOp κ) := do
+  let a ← isingAutomatonRaw J h g
   pyAssert a.isConsistent
   pure a
 
@@ -246,6 +250,32 @@ def widthsLoop (g : Graph κ) : Nat → List Int → List Nat → Except Err (Li
 /-- layer widths of a graph = `bond_dims` of the MPO compiled from it -/
 def graphWidths (g : Graph κ) : Except Err (List Nat) :=
   widthsLoop g (g.nodes.length + 2) [g.term false] [1]
+
+/-- `from_opchains` up to the start of the sweep: the chains with non-zero coefficient, padded with identities,
+as half-chains attached to the start node (the state before the first `for _ in range(length)` round) -/
+def chainsInitState (chains : List (OpChain κ)) (length : Int) (oidIdentity : Int) : Except Err (ChState κ) := do
+  if chains.isEmpty then throw .value
+  let nodeStart ← Node.mk' 0 [] [] 0
+  let nodeDummy ← Node.mk' (-1) [] [] 0
+  let graph ← Graph.mk' [nodeStart, nodeDummy] ([] : List (Edge κ)) [0, -1]
+  let chains ← (chains.filter (fun c => c.coeff != 0)).mapM (fun c => c.padded length oidIdentity)
+  let vlistNext ← chains.mapM (fun c => HalfChain.mk' (c.oids ++ [oidIdentity]) (c.qnums ++ [0]) nodeStart.nid)
+  pure ⟨graph, 1, 0, vlistNext, chains.map (·.coeff), []⟩
+
+/-- the first `n` rounds of the sweep of `from_opchains`, recording how many nodes every round creates
+(the increments of `nid_next`): the bond dimensions at the cuts `1, 2, ..., n` -/
+def sweepCounts (s0 : ChState κ) : Nat → Except Err (ChState κ × List Nat)
+  | 0 => .ok (s0, [])
+  | n + 1 => do
+    let (s, cs) ← sweepCounts s0 n
+    let s' ← siteStep s
+    pure (s', cs ++ [(s'.nidNext - s.nidNext).toNat])
+
+/-- number of nodes created by each site step of `from_opchains(chains, length, oid_identity)` -/
+def siteNodeCounts (chains : List (OpChain κ)) (length : Int) (oidIdentity : Int) : Except Err (List Nat) := do
+  let s0 ← chainsInitState chains length oidIdentity
+  let (_, counts) ← sweepCounts s0 length.toNat
+  pure counts
 
 end
 end Ptn.Ham
